@@ -57,6 +57,17 @@ func init() {
 		properties["C20"] = &property{ID: "C20", Level: "model_checking", Kinds: []string{"api"}, Harnesses: hs,
 			Assumptions: []string{"as C01; table of documented subjects per checker (builtin name / standard package path) in the harness"}}
 	}
+	properties["C10"] = &property{ID: "C10", Level: "translation_validation", Kinds: []string{"simplify"},
+		Harnesses: []harness{
+			{Name: "gsxC10BoolSimplify", Pkg: "checkers", Quick: map[string]int{"depth": 1, "strlen": 4, "paths": 6000, "wall_s": 120}, Thorough: map[string]int{"depth": 2, "strlen": 4, "paths": 100000, "wall_s": 1800},
+				NoValidate: true, Tolerant: true, ReplayFn: replayC10, MustReach: []string{"simplified"}},
+		},
+		Assumptions: []string{"integer operands without overflow (as the property allows); float64 operands over the rationals in half units (NaN/Inf not modelled); literals: decimal or octal integer literals of up to 3 digits"}}
+	properties["C12"] = &property{ID: "C12", Level: "model_checking", Kinds: []string{"claim"},
+		Harnesses: []harness{
+			{Name: "gsxC12BadCond", Pkg: "checkers", Solver: "z3", Quick: map[string]int{"paths": 4000, "wall_s": 60}, NoValidate: true, Tolerant: true, ReplayFn: replayC12BadCond, MustReach: []string{"always false"}},
+		},
+		Assumptions: []string{"badCond: two comparisons of one operand (identifier or impure call) against integer constants in [-8,8]; an impure call yields an independent value per evaluation"}}
 	properties["C11"] = &property{ID: "C11", Level: "translation_validation", Extra: runC11, ReplayExtra: replayC11,
 		Assumptions: []string{"patterns: the repository's own examples plus a bounded grammar (see evidence); Go's regexp/syntax parser is the semantics' front end; subjects are byte strings"}}
 	properties["C07"] = &property{
